@@ -166,7 +166,14 @@ func (s *server) closeListener() {
 // serve
 
 func (s *server) serve(ctx async.Context) status.Status {
-	ln := s.ln.MustUnwrap()
+	// The listener is cleared by closeListener under the mutex, possibly before serve starts.
+	s.mu.Lock()
+	ln, ok := s.ln.Unwrap()
+	s.mu.Unlock()
+	if !ok {
+		return status.OK
+	}
+
 	delay := time.Duration(0)
 	timeout := false
 
